@@ -92,6 +92,14 @@ macro_rules! explore {
 		.filter(|t| fr.valid(Kind::RiRef, t))
 		// "seed only" passes start from the constructors' values and nothing else
 		.filter(|t| !$seed_only || t.len() <= 2)
+		.chain(
+			// characters that only a query (iprivate) or only an IRI (ucschar) may hold, right after
+			// every kind of path: a mutator that takes them for path text leaves an invalid buffer
+			["s:/?\u{E000}", "s:/?\u{E000}#f", "s:?\u{E000}", "s:a?\u{E000}", "//h?\u{E000}", "/?\u{E000}", "?\u{E000}", "s://h/a?\u{E000}#é", "s:/#é", "s:/?é"]
+				.iter()
+				.map(|t| domains::b(t))
+				.filter(|t| !$seed_only && f == Family::Iri && fr.valid(Kind::RiRef, t)),
+		)
 		.collect();
 		let paths: Vec<Vec<u8>> = paths.into_iter().filter(|p| !$seed_only || p.len() <= 1).collect();
 		let tag = if $seed_only { "seedpass_" } else { "" };
